@@ -8,6 +8,7 @@ Driver area `cfg` (aw_core/config.py). A tree is `L <hex canonical leaf>` or
   cfg comment <text>                           -> commented text
   cfg strip <text>                             -> stripped text
   cfg skel <text>                              -> N | S <tree>      (parseSkel)
+  cfg firstfile <default text>                 -> N | S <tree>      (parseSkel of the commented-out text)
   cfg load <n> <default text> <N | S tree> <N | S <file text> <N | S tree>>
       -> n times: <N | S result tree> <N | S file text>
 -/
@@ -65,6 +66,9 @@ def handle : List String → String
   | "skel" :: r => runP (do
       let s ← pText
       pure (showRes (parseSkel s))) r
+  | "firstfile" :: r => runP (do
+      let s ← pText
+      pure (showRes (parseSkel (commentOut s)))) r
   | "load" :: r => runP (do
       let n ← pNat
       let dflt ← pText
